@@ -21,6 +21,11 @@
 #include <cstdint>
 #include <cstdlib>
 #include <cstring>
+#include <string>
+
+#if __cplusplus >= 201703L
+#include <string_view>
+#endif
 
 #if defined(_MSC_VER)
 
@@ -274,6 +279,20 @@ static inline std::uint64_t siphash(tlx::string_view str)
 {
     return siphash(str.data(), str.size());
 }
+
+//! hash the characters of a std::string (not the bytes of the string object)
+static inline std::uint64_t siphash(const std::string& str)
+{
+    return siphash(str.data(), str.size());
+}
+
+#if __cplusplus >= 201703L
+//! hash the characters of a std::string_view (not the bytes of the view object)
+static inline std::uint64_t siphash(std::string_view str)
+{
+    return siphash(str.data(), str.size());
+}
+#endif
 
 template <typename Type>
 static inline std::uint64_t siphash(const Type& value)
